@@ -1,6 +1,7 @@
 import NibabelModel.Model.C06
 import NibabelModel.Lemmas.PySlice
 import NibabelModel.Lemmas.C06_Final
+import NibabelModel.Lemmas.C06_NpSpecProofs
 /-! Props/C06 — property theorems for C06 (reading a slice from file bytes equals NumPy indexing).
     Stage A (per axis), stage B (segments), stage C (whole) — see DESIGN.md §5 C06.
 
@@ -247,5 +248,72 @@ example : (∀ x ∈ [IdxItem.int 0], x ≠ .newaxis ∧ x ≠ .ellipsis) ∧ [I
   intro x hx
   simp only [List.mem_singleton] at hx
   subst hx; exact ⟨by simp, by simp⟩
+
+/-! ## Stage D — against an INDEPENDENT NumPy specification
+
+    `npSpec` (Lemmas/C06_NpSpec.lean) is written from the NumPy rules alone — count the ints and
+    slices, at most one `Ellipsis` standing for `ndim − #real` full slices (implicit trailing one when
+    absent), `pyIntIndex` per int, `PySlice.sel` per slice, `None` = new axis — and shares nothing
+    with `canonical_slicers`.  It is compared with real NumPy on every run (`nps` stream). -/
+
+/-- **D1** `canonical_slicers` + per-axis selection (the `npIndex` used in stage C) equals the
+    independent NumPy specification, exactly (same result, same error value), for every index tuple
+    with at most one `Ellipsis`, every shape, both memory orders: ellipsis expansion, negative-int
+    normalisation, full-slice canonicalisation and trailing-axis filling are all correct. -/
+theorem npIndex_eq_npSpec (idx : List IdxItem) (shape : List Nat) (o : Order)
+    (hv : ∀ s, IdxItem.slice s ∈ idx → s.Valid) (he : nEllipsis idx ≤ 1) :
+    npIndex idx shape o = npSpecIndex idx shape o :=
+  npIndex_eq_npSpec' idx shape o hv he
+
+example : nEllipsis [IdxItem.int (-1), .ellipsis, .newaxis, .slice ⟨some 0, some 3, none⟩] ≤ 1 ∧
+    npSpecIndex [.int (-1), .ellipsis, .newaxis, .slice ⟨some 0, some 3, none⟩] [2, 2, 3] .C
+      = .ok ([2, 1, 3], [6, 7, 8, 9, 10, 11]) ∧
+    npIndex [.int (-1), .ellipsis, .newaxis, .slice ⟨some 0, some 3, none⟩] [2, 2, 3] .C
+      = .ok ([2, 1, 3], [6, 7, 8, 9, 10, 11]) := by decide
+
+/-- **D1 (two ellipses)** NumPy rejects an index with two `Ellipsis`; so does `canonical_slicers`
+    (possibly with a different error value when another error comes first). -/
+theorem npIndex_two_ellipses (idx : List IdxItem) (shape : List Nat) (o : Order)
+    (he : 1 < nEllipsis idx) :
+    npSpecIndex idx shape o = .error .value ∧ ∃ e, npIndex idx shape o = .error e :=
+  npIndex_two_ellipses' idx shape o he
+
+example : 1 < nEllipsis [IdxItem.ellipsis, .int 0, .ellipsis] := by decide
+
+/-- **D2** `fileslice` equals the independent NumPy specification (all hypotheses as in
+    `fileslice_eq_numpy`, at most one `Ellipsis`). -/
+theorem fileslice_eq_npSpec (h : Heuristic) (hh : ∀ i n st, h (.int i) n st ≠ .contiguous)
+    (idx : List IdxItem) (shape : List Nat) (hv : ∀ s, IdxItem.slice s ∈ idx → s.Valid)
+    (he : nEllipsis idx ≤ 1)
+    (o : Order) (isz off flen : Nat) (hisz : 0 < isz) (hlen : off + isz * shape.prod ≤ flen) :
+    fileslice h idx shape isz off flen o
+      = (npSpecIndex idx shape o).map (fun (sh, l) => (sh, l.map Int.ofNat)) :=
+  fileslice_eq_npSpec' h hh idx shape hv he o isz off flen hisz hlen
+
+example : nEllipsis [IdxItem.slice ⟨none, none, some (-2)⟩, .newaxis, .int (-1)] ≤ 1 ∧
+    npSpecIndex [.slice ⟨none, none, some (-2)⟩, .newaxis, .int (-1)] [5, 3] .C = .ok ([3, 1], [14, 8, 2]) := by
+  decide
+
+/-- **D2 (two ellipses)** with two `Ellipsis` both NumPy and `fileslice` raise, for every heuristic. -/
+theorem fileslice_two_ellipses (h : Heuristic) (idx : List IdxItem) (shape : List Nat)
+    (he : 1 < nEllipsis idx) (o : Order) (isz off flen : Nat) :
+    npSpecIndex idx shape o = .error .value ∧ ∃ e, fileslice h idx shape isz off flen o = .error e :=
+  fileslice_two_ellipses' h idx shape he o isz off flen
+
+/-- **D3** whole-tuple `predict_shape`: equals the shape of NumPy indexing for every index tuple with
+    at most one `Ellipsis` (and fails exactly when NumPy indexing fails, with the same error value). -/
+theorem predict_shape_spec (idx : List IdxItem) (shape : List Nat)
+    (hv : ∀ s, IdxItem.slice s ∈ idx → s.Valid) (he : nEllipsis idx ≤ 1) :
+    predictShape idx shape = (npSpec idx shape).map outShape :=
+  predictShape_spec' idx shape hv he
+
+example : nEllipsis [IdxItem.ellipsis, .newaxis, .slice ⟨some (-9), none, some 2⟩, .int (-2)] ≤ 1 ∧
+    predictShape [.ellipsis, .newaxis, .slice ⟨some (-9), none, some 2⟩, .int (-2)] [4, 5, 3] = .ok [4, 1, 3] := by
+  decide
+
+/-- **D3 (two ellipses)** -/
+theorem predict_shape_two_ellipses (idx : List IdxItem) (shape : List Nat) (he : 1 < nEllipsis idx) :
+    npSpec idx shape = .error .value ∧ ∃ e, predictShape idx shape = .error e :=
+  predictShape_two_ellipses' idx shape he
 
 end Nb.C06
